@@ -163,9 +163,20 @@ pub fn run(ctx: &mut Ctx) {
         for j in (0..3000).step_by(7) { er[j] = 1; }
         DefaultEngine::eval_poly(&mut er, 3000);
         let trace_eval = ISA_TRACE.swap(0, Ordering::SeqCst);
-        let trace = trace_rounds | trace_mul | trace_fft | trace_ifft | trace_eval;
+        // … and the way the decoders reach it: through the `Engine` trait with `E = DefaultEngine` (an inherent function
+        // of the same name would shadow the path call above while the trait's provided default serves the decoders)
+        fn through_trait<E: Engine>(er: &mut [u16; 65536], n: usize) { E::eval_poly(er, n) }
+        let mut er2 = Box::new([0u16; 65536]);
+        for j in (0..3000).step_by(7) { er2[j] = 1; }
+        through_trait::<DefaultEngine>(&mut er2, 3000);
+        let trace_eval_trait = ISA_TRACE.swap(0, Ordering::SeqCst);
+        if er2[..] != er[..] {
+            let case = Case { name: format!("mask avx2={} ssse3={}", avx2, ssse3), lines: vec![], with_model: false };
+            ctx.oracle_fail("<DefaultEngine as Engine>::eval_poly and DefaultEngine::eval_poly give different results".into(), &case, None);
+        }
+        let trace = trace_rounds | trace_mul | trace_fft | trace_ifft | trace_eval | trace_eval_trait;
         let best0 = if avx2 { ISA_AVX2 } else if ssse3 { ISA_SSSE3 } else { 0 };
-        for (name, t) in [("encode/decode rounds", trace_rounds), ("mul", trace_mul), ("fft", trace_fft), ("ifft", trace_ifft), ("eval_poly", trace_eval)] {
+        for (name, t) in [("encode/decode rounds", trace_rounds), ("mul", trace_mul), ("fft", trace_fft), ("ifft", trace_ifft), ("eval_poly", trace_eval), ("<DefaultEngine as Engine>::eval_poly", trace_eval_trait)] {
             if t != best0 {
                 let case = Case { name: format!("mask avx2={} ssse3={}", avx2, ssse3), lines: vec![], with_model: false };
                 ctx.oracle_fail(format!("{} under the mask avx2={} ssse3={} executed ISAs {:?}; the most capable reported one is {:?} and must serve every primitive", name, avx2, ssse3, isa_names(t), isa_names(best0)), &case, None);
